@@ -15,11 +15,11 @@ def worker_families(res, quick, thorough):
 
 
 def c01(res):
-    worker_families(res, ["MC_SendCoreQuick"], ["MC_SendCoreFull", "MC_SendDup", "MC_SendWrapReal"])
+    worker_families(res, ["MC_SendCoreQuick", "MC_SendWrapReal"], ["MC_SendCoreFull", "MC_SendDup", "MC_SendWrapRealDeep"])
 
 
 def c02(res):
-    worker_families(res, ["MC_RecvCoreQuick"], ["MC_RecvCoreFull", "MC_RecvDup", "MC_RecvWrapReal"])
+    worker_families(res, ["MC_RecvCoreQuick", "MC_RecvWrapReal"], ["MC_RecvCoreFull", "MC_RecvDup", "MC_RecvWrapRealDeep"])
 
 
 def c07(res):
@@ -50,11 +50,45 @@ def c16(res):
     worker_families(res, ["MC_SendDup", "MC_RecvDup"], ["MC_SendDup", "MC_RecvDup"])
 
 
-CHECKS = {"C01": c01, "C02": c02, "C04": c04, "C07": c07, "C08": c08, "C13": c13, "C15": c15, "C16": c16}
+def short_prefix_vectors(v):
+    return len(v["b"]) in (2, 4)
+
+
+def u16_file():
+    path = os.path.join(C.GEN, "u16.vectors.ndjson")
+    if not os.path.exists(path):
+        os.makedirs(C.GEN, exist_ok=True)
+        with open(path, "w") as f:
+            f.write('{"u16":[0,65535]}\n')
+    return path
+
+
+def codec(res):
+    """C10 and C11 share the enumerations; each files only the deviations labelled with its id."""
+    q = res.tier == "quick"
+    W.run_family(res, "MC_Codec_BytesQuick" if q else "MC_Codec_BytesFull", layer=W.CODEC)
+    W.run_family(res, "MC_Codec_Prefix", select=short_prefix_vectors if q else None, layer=W.CODEC)
+    W.run_family(res, "MC_Codec_PacketsQuick" if q else "MC_Codec_PacketsFull", layer=W.CODEC)
+    W.run_vectors(res, u16_file(), "u16-conversions", layer=W.CODEC)
+    res.assumptions += ["'never reads outside the buffer' is observed as 'never panics' (safe Rust)",
+                        "option names are compared ASCII-case-insensitively in the specification; Unicode characters whose lowercase is ASCII (KELVIN SIGN) are outside the enumerated alphabet",
+                        "ERROR without a terminated or well-formed message decodes with the message '(no message)' (the code's documented behaviour, covered by a baseline test)"]
+
+
+def c18(res):
+    fams = ["MC_Window_ReadersQuick", "MC_Window_MixedQuick"] if res.tier == "quick" else \
+           ["MC_Window_ReadersFull", "MC_Window_MixedFull"]
+    for f in fams:
+        W.run_family(res, f, layer=W.WINDOW)
+    res.assumptions += ["files are regular files on a local file system; a reader's file is opened read-only, a writer's is created write-only (as the worker does)",
+                        "fill() after end of file yields further empty pieces (recorded behaviour; the property constrains the bytes handed out)"]
+
+
+CHECKS = {"C10": codec, "C11": codec, "C18": c18, "C01": c01, "C02": c02, "C04": c04, "C07": c07, "C08": c08, "C13": c13, "C15": c15, "C16": c16}
 
 
 def setup():
-    C.build_harness(("wsim",))
+    C.build_harness(("wsim", "pure"))
     for f in ["MC_SendCoreQuick", "MC_RecvCoreQuick"]:
         W.generate(f)
     return 0
